@@ -9,6 +9,7 @@
   (`Live st`; `cancelAt = none` implies it), `try` not shadowed by a macro (`NotMacro st env "try"`).
   Property theorems only; proofs in Proofs/EvalTry.lean.
 -/
+import LispModel.Proofs.LispErrorLaws
 import LispModel.Eval
 import LispModel.Proofs.EvalTry
 import LispModel.Proofs.EvalTail
@@ -276,5 +277,40 @@ theorem finally_runs_when_handler_throws :
         Ls [Sy "catch", Sy "e", Ls [Sy "trace!", Kw "h"], Ls [Sy "throw", Nm 2]], Ls [Sy "finally", Ls [Sy "trace!", Kw "f"]]]);
      isErrWith r (Nm 2) && !isErrWith r (Nm 1) && traceEq r [Kw "h", Kw "f"]) = true :=
   Proofs.SeedLaws.C03.finally_runs_when_handler_throws
+
+
+/-! ## the error objects themselves (lisperror/lisperror.go; model LispModel/LispError.lean, engine lerr)
+
+The evaluator model carries thrown values abstractly; these laws are about the Go objects that carry them: `LispError`,
+`NewLispError` (re-positioning), `NewGoError` (`%w` wrapping), the `throw` builtin, and the standard library's
+`errors.Is` / `errors.Unwrap` walk over such chains — tied to the real package by engine `lerr`. -/
+
+open LispModel.LispError in
+/-- re-positioning an error, any number of times, never changes the thrown object -/
+theorem thrown_object_survives_repositioning {cs : List Carrier} {e r : E} (h : reposAll e cs = .ok r) :
+    errorValue r = errorValue e := reposAll_keeps_object h
+
+open LispModel.LispError in
+/-- `throw` hands its argument on unchanged (an error as it is, any other value as the payload) -/
+theorem throw_builtin_keeps_object {a r : E} (h : LispError.throw a = .ok r) : errorValue r = errorValue a :=
+  throw_keeps_object h
+
+open LispModel.LispError in
+/-- whatever `errors.Is` finds in an error it still finds after any stack of `NewGoError` wrappings and
+    re-positionings ("Go errors still reachable with errors.Is through any depth") -/
+theorem errors_is_survives_wrapping {fs : List Frame} {e r t : E} (he : isErrorValue e = true) (hf : Flat e = true)
+    (h : errorsIs e t = .ok true) (hr : applyFrames fs e = .ok r) : errorsIs r t = .ok true :=
+  reposition_preserves_is he hf h hr
+
+open LispModel.LispError in
+/-- a panicking builtin's error value is found again through the binder's `NewGoError` -/
+theorem go_error_wraps_original (id k : Nat) (n m : String) :
+    errorsIs (newGoError id n (.sentinel k m)) (.sentinel k m) = .ok true := newGoError_wraps_original id k n m
+
+open LispModel.LispError in
+/-- `errors.Is` itself cannot panic unless both chains end in lisp collections of one uncomparable kind -/
+theorem errors_is_panics_only_on_like_collections {e t : E}
+    (h : ∀ a b, rootValue e = some a → rootValue t = some b → a.kind = b.kind → a.kind.comparable = true) :
+    errorsIs e t ≠ .panic := errorsIs_no_panic_of_comparable h
 
 end LispModel.Props.C03
